@@ -89,14 +89,23 @@ func (t *Tape) Order(step, n int) []int {
 // size of the single-preemption space of a program).
 type Counting struct {
 	Inner Policy
-	N     []int
+	N     []int // all candidates (working goroutines, parked pollers, timers)
+	NW    []int // working goroutines only (forced choices 0..NW-2 address exactly those)
 }
 
 func (c *Counting) Choose(step int, cands []Choice, cur int) int {
 	for len(c.N) <= step {
 		c.N = append(c.N, 0)
+		c.NW = append(c.NW, 0)
 	}
 	c.N[step] = len(cands)
+	nw := 0
+	for i, cd := range cands {
+		if i == cur || (!cd.Timer && !cd.Poller) {
+			nw++
+		}
+	}
+	c.NW[step] = nw
 	return c.Inner.Choose(step, cands, cur)
 }
 
